@@ -57,8 +57,8 @@ func runBpCase(out *ndjson, c bpCase) {
 	}
 	n := cl.nodes[0]
 	body := "blk"
-	cl.bodies[body] = true
-	cl.bodies["other"] = true
+	cl.addBody(body)
+	cl.addBody("other")
 	block := &vBlock{height: bpHeight, body: body}
 	prevBlock := &vBlock{height: bpHeight - 1, body: "prev"}
 	prevProof := (&protocol.BlockProofBuilder{BlockRef: &protocol.BlockRefBuilder{MessageType: protocol.LEAN_HELIX_COMMIT, InstanceId: clusterInstance, BlockHeight: bpHeight - 1},
